@@ -221,7 +221,16 @@ def ctor_state(classes, funcs, leaf, libclasses):
             raise Break("constructor of %s not found exactly once" % cls)
         ctor = ctor[0]
         if ctor["body"].strip("{} \n\t") != "":
-            raise Break("constructor of %s has a non-empty body" % cls)
+            # the only constructor statements inside the extraction's subset: zero-filling an ARRAY data member of the chain,
+            # memset(m, 0, sizeof(m)); - exactly the value the member's file-scope object has before any method runs
+            # (C static storage is zero-initialised), so nothing needs to be emitted for it.  Anything else: extraction break.
+            inner = ctor["body"].strip()
+            inner = inner[1:-1] if inner.startswith("{") and inner.endswith("}") else inner
+            for st in [x.strip() for x in inner.split(";") if x.strip()]:
+                ms = re.match(r"memset\s*\(\s*(\w+)\s*,\s*0\s*,\s*sizeof\s*\(\s*(\w+)\s*\)\s*\)$", st)
+                arrs = [nm for c in classes for (ty, nm, dims) in classes[c]["members"] if dims]
+                if not (ms and ms.group(1) == ms.group(2) and ms.group(1) in arrs):
+                    raise Break("constructor of %s has a body statement outside the subset (only memset(<array member>, 0, sizeof(<it>)) is understood): %r" % (cls, st[:60]))
         params = [p.split()[-1].lstrip("*&") for p in split_args(ctor["params"])] if ctor["params"].strip() else []
         if len(params) != len(args):
             raise Break("constructor arity mismatch in %s" % cls)
